@@ -729,6 +729,12 @@ func (r *rw) rangeMap(s *ast.RangeStmt) []ast.Stmt {
 		r.rep.Unseamed = append(r.rep.Unseamed, "range over type-parameter map at "+r.where(s.Pos()))
 		return nil
 	}
+	if _, isIface := mt.Key().Underlying().(*types.Interface); isIface {
+		// an interface key type satisfies `comparable` only from go1.20 on, and the
+		// library's go.mod may say less: the generic seam would not compile
+		r.rep.Unseamed = append(r.rep.Unseamed, "range over interface-keyed map at "+r.where(s.Pos()))
+		return nil
+	}
 	r.tmpN++
 	site := r.newSite(s.Pos(), false, false, "rangemap")
 	r.rep.OrderSeams = append(r.rep.OrderSeams, "range over map at "+r.where(s.Pos()))
